@@ -307,7 +307,12 @@ def _arg_transform(f, bb):
             b0 = mir.strip_refs(base)
             e0 = f._proj1(b0, ("elem", 0))
             e1 = f._proj1(b0, ("elem", 1))
-            if path == (("elem", 1),) and val == ("bin", "Sub", e0, e1) and transform == "id":
+            v0 = mir.strip_refs(val)
+            # m - n, plain or overflow-safe (saturating / wrapping / checked-and-unwrapped)
+            is_sub = v0 == ("bin", "Sub", e0, e1) or (
+                v0[0] == "call" and isinstance(v0[1], str) and v0[1].rsplit("::", 1)[-1] in ("saturating_sub", "wrapping_sub") and
+                len(v0[2]) == 2 and mir.strip_refs(v0[2][0]) == mir.strip_refs(e0) and mir.strip_refs(v0[2][1]) == mir.strip_refs(e1))
+            if path == (("elem", 1),) and is_sub and transform == "id":
                 transform = "m-n"
             else:
                 transform = "other"
